@@ -257,7 +257,23 @@ class Inc:
             if len(ks) == 3:
                 self.feat.add('include_next-chain-of-3')
             self.has_next = True
+        # a directory inside a search directory, both on the search path: one file is then reachable under two (directory, name) pairs,
+        # and #include_next in it must continue after the directory it was found in *this* time
+        self.nested = False
+        if ch.int(0, 4) == 0:
+            files['i1/nb/hq_x.h'] = 'X_nb;\n#include_next <hq_y.h>\nX_nb_end;\n'
+            files['i1/nb/hq_y.h'] = 'Y_nb;\n'
+            files['%s/hq_y.h' % ch.choice([d for d in il + al if d != 'i1'] or ['i1'])] = 'Y_far;\n'
+            if 'i1' not in il:
+                il.append('i1')
+            il.insert(ch.int(0, len(il)), 'i1/nb')
+            self.nested = True
+            self.feat.add('nested-search-directories')
         main = []
+        if self.nested:
+            for form in ch.shuffle(['<nb/hq_x.h>', '<hq_x.h>', '<nb/hq_x.h>', '"i1/nb/hq_x.h"']):
+                main.append('#include ' + form)
+                main.append('MAIN_n%d;' % len(main))
         for _ in range(ch.int(2, 6)):
             nm = ch.choice(NAMES)
             form = ch.choice(['"%s"', '<%s>', '"%s"'])
@@ -295,7 +311,7 @@ class Inc:
         return files, args
 
 
-MARK = re.compile(r'(?:M_\w+|MAIN_\d+|DX_is \w+|N_\w+|PRE_\w+)')
+MARK = re.compile(r'(?:M_\w+|MAIN_\w+|DX_is \w+|N_\w+|N\d+(?:_end)?|X_nb\w*|Y_\w+|PRE_\w+)')
 
 
 class C10:
@@ -369,6 +385,7 @@ class C10:
             for dr in ['i1', 'i2', 'i3', 'aft1', 'aft2', 'sub']:
                 os.makedirs(os.path.join(d, dr), exist_ok=True)
             for name, content in files.items():
+                os.makedirs(os.path.dirname(os.path.join(d, name)), exist_ok=True)
                 open(os.path.join(d, name), 'w').write(content)
             rg, tg, eg, tog, og = pptok.cpp(ctx.tree, 'gcc', 'main.c', args=args, cwd=d, timeout=5)
             rc_, tc, ec, toc, oc = pptok.cpp(ctx.tree, 'clang', 'main.c', args=args, cwd=d, timeout=5)
